@@ -73,3 +73,25 @@ Proof.
   - intro x. apply count_le_perm; assumption.
 Qed.
 End SortUniq.
+
+(* Two strictly sorted lists that are permutations of one another are equal. *)
+Section StrictUniq.
+Context {A} (R : A -> A -> Prop).
+Hypothesis R_irrefl : forall a, ~ R a a.
+Hypothesis R_trans : forall a b c, R a b -> R b c -> R a c.
+
+Theorem strict_sorted_perm_eq : forall l1 l2,
+  StronglySorted R l1 -> StronglySorted R l2 -> Permutation l1 l2 -> l1 = l2.
+Proof.
+  induction l1 as [|a r1 IH]; intros l2 S1 S2 P.
+  - apply Permutation_nil in P. subst. reflexivity.
+  - destruct l2 as [|b r2]; [apply Permutation_sym, Permutation_nil in P; discriminate|].
+    inversion S1 as [|? ? S1' F1]; subst. inversion S2 as [|? ? S2' F2]; subst.
+    assert (Hab : a = b).
+    { assert (Ia : In a (b :: r2)) by (eapply Permutation_in; [exact P|left; reflexivity]).
+      assert (Ib : In b (a :: r1)) by (eapply Permutation_in; [apply Permutation_sym; exact P|left; reflexivity]).
+      destruct Ia as [E|Ia]; [auto|]. destruct Ib as [E|Ib]; [auto|].
+      rewrite Forall_forall in F1, F2. exfalso. apply (R_irrefl a). eapply R_trans; [apply F1; exact Ib|apply F2; exact Ia]. }
+    subst b. f_equal. apply IH; auto. eapply Permutation_cons_inv; eauto.
+Qed.
+End StrictUniq.
